@@ -73,7 +73,11 @@ func AuthFirstPacket(firstPacket []byte, transport Transport, sta *State) (info 
 		return
 	}
 
-	if sta.registerRandom(fragments.randPubKey) {
+	// X25519 ignores the top bit of the u-coordinate (RFC 7748): key the replay cache on the masked value so
+	// that flipping that bit does not yield a fresh cache entry for the same shared secret
+	replayKey := fragments.randPubKey
+	replayKey[31] &= 0x7f
+	if sta.registerRandom(replayKey) {
 		err = ErrReplay
 		return
 	}
